@@ -76,6 +76,8 @@ pub enum Ty {
 	Named(usize),
 	/// generic def instantiated
 	Gen(usize, Vec<Ty>),
+	/// a const generic argument (only inside `Gen`)
+	Const(usize),
 }
 
 #[derive(Clone, Debug, PartialEq, Eq, Hash, Serialize, Deserialize)]
@@ -98,6 +100,11 @@ pub enum Lg {
 
 impl Lg {
 	/// logical-type field of the generic shapes 3.. (`struct G<T> { a: T, f: <this> }`)
+	/// generic shapes that are newtype structs (no record of their own): 1 `G<T>(T)`,
+	/// 8 `G<T>(#[avro_schema(logical_type = "custom-stamp")] T)`, 9 `G<T>(Option<T>)`
+	pub fn newtype_shape(shape: usize) -> bool {
+		matches!(shape, 1 | 8 | 9)
+	}
 	pub fn of_generic_shape(shape: usize) -> Option<Lg> {
 		match shape {
 			3 => Some(Lg::DecFixed { size: 4, scale: 1, precision: 5 }),
@@ -107,6 +114,19 @@ impl Lg {
 			_ => None,
 		}
 	}
+}
+
+/// The Rust type of a field whose SCHEMA type the derive substitutes (because of a logical-type
+/// attribute, or because the type's name is `Uuid`): it needs no `BuildSchema` impl
+#[derive(Clone, Debug, PartialEq, Eq, Hash, Serialize, Deserialize)]
+pub enum Carrier {
+	/// a type called `Uuid` (`#[serde(transparent)] struct Uuid(String)` of the runtime crate),
+	/// written `Uuid` (imported) or `rt::Uuid` (module path)
+	LocalUuid { qualified: bool },
+	/// `#[serde(transparent)]` newtype over the canonical type: I64 -> `rt::TrI64`, I32 -> `rt::TrI32`, Str -> `rt::TrStr`
+	Transparent(Leaf),
+	/// another integer width (values restricted to what the substituted Avro type can hold)
+	Int(Leaf),
 }
 
 /// What may stand at a field position (struct field, newtype field, variant payload)
@@ -122,6 +142,12 @@ pub enum FieldTy {
 	/// `#[serde(with = "serde_bytes", borrow)] &'a [u8]` (root struct fields only)
 	BBytes,
 	Logical(Lg),
+	/// a field whose Rust type is not the canonical type of its logical type (`lg` = the attribute;
+	/// None = no attribute, the logical type is inferred from the type's name)
+	Carried { lg: Option<Lg>, carrier: Carrier },
+	/// `#[avro_schema(skip)] #[serde(skip)]` member of type `rt::NoSchema` (neither BuildSchema
+	/// nor Serialize): a struct field, or the payload of a skipped enum variant
+	Skipped,
 }
 
 #[derive(Clone, Debug, PartialEq, Eq, Hash, Serialize, Deserialize)]
@@ -247,6 +273,7 @@ impl<'p> Placed<'p> {
 			Ty::Ptr(Ptr::Arc, t) => format!("std::sync::Arc<{}>", self.ty_src(t, lt)),
 			Ty::Named(i) => self.path(*i),
 			Ty::Gen(g, args) => format!("{}<{}>", self.ident(*g), args.iter().map(|a| self.ty_src(a, lt)).collect::<Vec<_>>().join(", ")),
+			Ty::Const(n) => n.to_string(),
 		}
 	}
 
@@ -268,6 +295,24 @@ impl<'p> Placed<'p> {
 			FieldTy::Fixed(n) => ("#[serde(with = \"serde_bytes\")] ".into(), format!("[u8; {n}]")),
 			FieldTy::BBytes => ("#[serde(with = \"serde_bytes\", borrow)] ".into(), format!("&{lt} [u8]")),
 			FieldTy::Logical(l) => Self::logical_src(l, false),
+			FieldTy::Carried { lg, carrier } => {
+				let attr = match lg {
+					Some(l) => Self::logical_src(l, false).0,
+					None => String::new(),
+				};
+				// serde_bytes attributes belong to the canonical carrier only
+				let attr = attr.replace("#[serde(with = \"serde_bytes\")] ", "");
+				let ty = match carrier {
+					Carrier::LocalUuid { qualified: false } => "Uuid".to_owned(),
+					Carrier::LocalUuid { qualified: true } => "rt::Uuid".to_owned(),
+					Carrier::Transparent(Leaf::I64) => "rt::TrI64".to_owned(),
+					Carrier::Transparent(Leaf::I32) => "rt::TrI32".to_owned(),
+					Carrier::Transparent(_) => "rt::TrStr".to_owned(),
+					Carrier::Int(l) => l.src().to_owned(),
+				};
+				(attr, ty)
+			}
+			FieldTy::Skipped => ("#[avro_schema(skip)] #[serde(skip)] ".into(), "rt::NoSchema".into()),
 		}
 	}
 
@@ -305,6 +350,22 @@ impl<'p> Placed<'p> {
 			FieldTy::Fixed(n) => (format!("rt::fixed_values::<{n}>()"), "rt::desc_bytes(&$x[..], o);".into()),
 			FieldTy::BBytes => ("rt::bbytes_values()".into(), "rt::desc_bytes($x, o);".into()),
 			FieldTy::Logical(l) => Self::logical_dom(l),
+			FieldTy::Carried { lg, carrier } => {
+				let name = lg.as_ref().map_or("uuid", Self::logical_name);
+				let int_backed = matches!(lg.as_ref().map(|l| Self::logical_name(l)), Some("date") | Some("time-millis"));
+				let vals = match carrier {
+					Carrier::LocalUuid { .. } => "<rt::Uuid as Dom>::values(rec)".to_owned(),
+					Carrier::Transparent(Leaf::I64) => "<rt::TrI64 as Dom>::values(rec)".to_owned(),
+					Carrier::Transparent(Leaf::I32) => "<rt::TrI32 as Dom>::values(rec)".to_owned(),
+					Carrier::Transparent(_) => "<rt::TrStr as Dom>::values(rec)".to_owned(),
+					// wider than the substituted Avro type: only the values it can hold (the
+					// statement's exemption; beyond that the pair is a no-verdict zone)
+					Carrier::Int(Leaf::U32) if int_backed => "vec![0u32, i32::MAX as u32]".to_owned(),
+					Carrier::Int(l) => format!("<{} as Dom>::values(rec)", l.src()),
+				};
+				(vals, format!("o.push_str(\"{{\\\"lg\\\":[\\\"{name}\\\",\"); Dom::describe($x, o); o.push_str(\"]}}\");"))
+			}
+			FieldTy::Skipped => ("vec![rt::NoSchema::default()]".into(), String::new()),
 		}
 	}
 
@@ -350,7 +411,11 @@ impl<'p> Placed<'p> {
 				Def::Newtype { field } => self.field_nullable(field),
 				_ => false,
 			},
-			Ty::Gen(g, args) => matches!(self.p.defs[*g], Def::Generic { shape: 1 }) && self.ty_nullable(&args[0]),
+			Ty::Gen(g, args) => match self.p.defs[*g] {
+				Def::Generic { shape: 1 } | Def::Generic { shape: 8 } => self.ty_nullable(&args[0]),
+				Def::Generic { shape: 9 } => true,
+				_ => false,
+			},
 			_ => false,
 		}
 	}
@@ -378,11 +443,11 @@ impl<'p> Placed<'p> {
 					FieldTy::Fixed(_) => Some(self.fullname(*i)),
 					FieldTy::Logical(Lg::DecFixed { .. }) | FieldTy::Logical(Lg::CustomFixed(_)) => Some(self.fullname(*i)),
 					FieldTy::Logical(Lg::Duration) => Some("Duration".into()),
-					FieldTy::OptBytes | FieldTy::Logical(_) => None,
+					FieldTy::OptBytes | FieldTy::Logical(_) | FieldTy::Carried { .. } | FieldTy::Skipped => None,
 				},
 				Def::Union { .. } | Def::Generic { .. } => None,
 			},
-			Ty::Gen(..) => None,
+			Ty::Gen(..) | Ty::Const(_) => None,
 		}
 	}
 	pub fn variant_branch(&self, f: &FieldTy, owner: usize, variant_pos: usize) -> Option<String> {
@@ -398,7 +463,7 @@ impl<'p> Placed<'p> {
 				Lg::DecFixed { .. } | Lg::CustomFixed(_) => Some(self.variant_owned_name(owner, variant_pos)),
 				_ => None,
 			},
-			FieldTy::OptBytes => None,
+			FieldTy::OptBytes | FieldTy::Carried { .. } | FieldTy::Skipped => None,
 		}
 	}
 	fn variant_owned_name(&self, owner: usize, variant_pos: usize) -> String {
@@ -415,13 +480,16 @@ impl<'p> Placed<'p> {
 				Def::Struct { fields, .. } => fields.iter().collect(),
 				Def::Newtype { field } => vec![field],
 				Def::Union { variants, unit_at } => {
-					if variants.is_empty() {
+					if variants.iter().all(|v| *v == FieldTy::Skipped) {
 						return Err("union without data variants is a unit-only enum".into());
 					}
 					let pos = Self::variant_positions(variants.len(), *unit_at);
 					let mut seen = BTreeSet::new();
 					seen.insert("Null".to_owned());
 					for (k, v) in variants.iter().enumerate() {
+						if *v == FieldTy::Skipped {
+							continue;
+						}
 						if self.field_nullable(v) {
 							return Err("nullable variant payload".into());
 						}
@@ -465,6 +533,7 @@ impl<'p> Placed<'p> {
 		match t {
 			Ty::Leaf(l) => l.branch().unwrap_or("Null").to_owned(),
 			Ty::BStr => "String".into(),
+			Ty::Const(n) => n.to_string(),
 			Ty::Opt(t) => format!("opt<{}>", self.canon(t)),
 			Ty::Vec(t) => format!("arr<{}>", self.canon(t)),
 			Ty::HMap(t) | Ty::BMap(t) => format!("map<{}>", self.canon(t)),
@@ -476,6 +545,7 @@ impl<'p> Placed<'p> {
 			},
 			Ty::Gen(g, a) => match self.p.defs[*g] {
 				Def::Generic { shape: 1 } => self.canon(&a[0]),
+				Def::Generic { shape: 9 } => format!("opt<{}>", self.canon(&a[0])),
 				_ => format!("G{g}<{}>", a.iter().map(|t| self.canon(t)).collect::<Vec<_>>().join(",")),
 			},
 		}
@@ -523,7 +593,7 @@ impl<'p> Placed<'p> {
 			Ty::Opt(t) | Ty::Vec(t) | Ty::HMap(t) | Ty::BMap(t) | Ty::Ptr(_, t) => self.walk_ty(t, recs, enums, seen),
 			Ty::Named(i) => self.walk_def(*i, recs, enums, seen),
 			Ty::Gen(g, a) => {
-				if !matches!(self.p.defs[*g], Def::Generic { shape: 1 }) {
+				if !matches!(self.p.defs[*g], Def::Generic { shape } if Lg::newtype_shape(shape)) {
 					recs.insert(self.canon(t));
 				}
 				for t in a {
@@ -583,7 +653,7 @@ impl<'p> Placed<'p> {
 		self.p.defs.iter().any(|d| matches!(d, Def::Generic { .. }))
 	}
 	pub fn uses_newtype(&self) -> bool {
-		self.p.defs.iter().any(|d| matches!(d, Def::Newtype { .. } | Def::Generic { shape: 1 }))
+		self.p.defs.iter().any(|d| matches!(d, Def::Newtype { .. }) || matches!(d, Def::Generic { shape } if Lg::newtype_shape(*shape)))
 	}
 
 	// ---- emission ---------------------------------------------------------------------------
@@ -634,9 +704,14 @@ impl<'p> Placed<'p> {
 				s.push_str("\t\tlet mut out = Vec::new();\n\t\tfor ix in rt::tuples(&sizes) {\n");
 				s.push_str(&format!("\t\t\tout.push({id} {{ {} }});\n", (0..fields.len()).map(|k| format!("{}: d{k}[ix[{k}]].clone()", field_name(k))).collect::<Vec<_>>().join(", ")));
 				s.push_str("\t\t}\n\t\tout\n\t}\n\tfn describe(&self, o: &mut String) {\n\t\to.push_str(\"{\\\"rec\\\":[\");\n");
+				let mut first = true;
 				for (k, f) in fields.iter().enumerate() {
+					if *f == FieldTy::Skipped {
+						continue; // not part of the data model
+					}
 					let n = field_name(k);
-					let sep = if k > 0 { "," } else { "" };
+					let sep = if first { "" } else { "," };
+					first = false;
 					s.push_str(&format!("\t\to.push_str(\"{sep}[\\\"{n}\\\",\");\n\t\t{}\n\t\to.push(']');\n", self.field_dom(f).1.replace("$x", &format!("&self.{n}"))));
 				}
 				s.push_str("\t\to.push_str(\"]}\");\n\t}\n}\n");
@@ -676,6 +751,11 @@ impl<'p> Placed<'p> {
 					}
 					let k = pos.iter().position(|&q| q == p).unwrap();
 					let f = &variants[k];
+					if *f == FieldTy::Skipped {
+						s.push_str(&format!("\t#[avro_schema(skip)]\n\t#[serde(skip)]\n\tV{p}(rt::NoSchema),\n"));
+						desc.push_str(&format!("\t\t\t{id}::V{p}(_) => o.push_str(\"{{\\\"skipped-variant\\\":0}}\"),\n"));
+						continue;
+					}
 					let branch = self.variant_branch(f, i, p).unwrap_or_else(|| "INVALID".into());
 					let (a, t) = self.field_src(f, lt);
 					s.push_str(&format!("\t#[serde(rename = \"{branch}\")]\n\tV{p}({a}{t}),\n"));
@@ -704,6 +784,23 @@ impl<'p> Placed<'p> {
 					1 => {
 						s.push_str(&format!("struct {id}<T>(T);\n"));
 						s.push_str(&format!("impl<T: Dom> Dom for {id}<T> {{\n\tfn values(rec: u32) -> Vec<Self> {{\n\t\t<T as Dom>::values(rec).into_iter().map({id}).collect()\n\t}}\n"));
+						s.push_str("\tfn describe(&self, o: &mut String) {\n\t\to.push_str(\"{\\\"nt\\\":\");\n\t\tDom::describe(&self.0, o);\n\t\to.push('}');\n\t}\n}\n");
+					}
+					7 => {
+						s.push_str(&format!("struct {id}<const N: usize> {{\n\t#[serde(with = \"serde_bytes\")] a: [u8; N],\n\tb: i32,\n}}\n"));
+						s.push_str(&format!(
+							"impl<const N: usize> Dom for {id}<N> {{\n\tfn values(rec: u32) -> Vec<Self> {{\n\t\tlet d0 = rt::fixed_values::<N>();\n\t\tlet d1 = <i32 as Dom>::values(rec);\n\t\tlet mut out = Vec::new();\n\t\tfor ix in rt::tuples(&[d0.len(), d1.len()]) {{\n\t\t\tout.push({id} {{ a: d0[ix[0]].clone(), b: d1[ix[1]].clone() }});\n\t\t}}\n\t\tout\n\t}}\n"
+						));
+						s.push_str("\tfn describe(&self, o: &mut String) {\n\t\to.push_str(\"{\\\"rec\\\":[[\\\"a\\\",\");\n\t\trt::desc_bytes(&self.a[..], o);\n\t\to.push_str(\"],[\\\"b\\\",\");\n\t\tDom::describe(&self.b, o);\n\t\to.push_str(\"]]}\");\n\t}\n}\n");
+					}
+					8 => {
+						s.push_str(&format!("struct {id}<T>(#[avro_schema(logical_type = \"custom-stamp\")] T);\n"));
+						s.push_str(&format!("impl<T: Dom> Dom for {id}<T> {{\n\tfn values(rec: u32) -> Vec<Self> {{\n\t\t<T as Dom>::values(rec).into_iter().map({id}).collect()\n\t}}\n"));
+						s.push_str("\tfn describe(&self, o: &mut String) {\n\t\to.push_str(\"{\\\"nt\\\":{\\\"lg\\\":[\\\"custom-stamp\\\",\");\n\t\tDom::describe(&self.0, o);\n\t\to.push_str(\"]}}\");\n\t}\n}\n");
+					}
+					9 => {
+						s.push_str(&format!("struct {id}<T>(Option<T>);\n"));
+						s.push_str(&format!("impl<T: Dom> Dom for {id}<T> {{\n\tfn values(rec: u32) -> Vec<Self> {{\n\t\t<Option<T> as Dom>::values(rec).into_iter().map({id}).collect()\n\t}}\n"));
 						s.push_str("\tfn describe(&self, o: &mut String) {\n\t\to.push_str(\"{\\\"nt\\\":\");\n\t\tDom::describe(&self.0, o);\n\t\to.push('}');\n\t}\n}\n");
 					}
 					sh if Lg::of_generic_shape(*sh).is_some() => {
@@ -754,7 +851,7 @@ impl<'p> Placed<'p> {
 		let heads = self.cycle_heads();
 		let mut s = format!("// GENERATED by `vcheck C20` — family {} ({origin}); do not edit.\n", self.family);
 		s.push_str("#![allow(dead_code, unused_imports, unused_variables, private_interfaces, clippy::all)]\n");
-		s.push_str("use serde::{Deserialize, Serialize};\nuse serde_avro_derive::BuildSchema;\nuse vderive_rt::{self as rt, Dom};\n\n");
+		s.push_str("use serde::{Deserialize, Serialize};\nuse serde_avro_derive::BuildSchema;\nuse vderive_rt::{self as rt, Dom, Uuid};\n\n");
 		let mut subs: Vec<String> = Vec::new();
 		for i in 0..self.p.defs.len() {
 			if let Some(m) = self.module(i) {
